@@ -34,7 +34,7 @@ InitCir ==
         c = CirCase("turns", R(n, d), 0, 0, f)
   \/ \E k \in {45, 46, 47, 51, 52, 53, 60, 100, 1000, 1074} : \E s \in {-1, 1} : \E kind \in {"tinydeg", "tinyrad"} :
         \E f \in CirForms : c = CirCase(kind, Zero, s, k, f)
-CirExp(cc) == CirExpected(cc)
+CirExp(cc) == [cmp |-> CirExpected(cc).cmp, val |-> CirExpected(cc).val, dev |-> Dev_CirTinyNegativeGivesPeriod(cc)]
 
 (* -------------------------------- hogg_iau_name -------------------------------- *)
 SDSS == <<"S", "D", "S", "S">>
